@@ -1,5 +1,6 @@
 import Pathrs.Proofs.Runs
 import Pathrs.Proofs.FollowVerified
+import Pathrs.Proofs.KProcReopen
 
 /-!
 # C09 — reopen yields the same inode for any descriptor number
@@ -261,7 +262,34 @@ theorem C09_follow_verified (env : Env) (hd : ProcH) (base : Procfs.Base) (sub :
       h' = h3 ++ [(Call.openat pfd trailing (fl ||| O_CLOEXEC ||| O_NOCTTY) 0, Resp.fd fd), (Call.close pfd, rc)] :=
   follow_verified env hd base sub fl hr
 
+open KProc KProcOpen KProcReopen in
+/-- **`reopen` on any procfs tree with any mount layout** (`Proofs/KProcOpen.lean`, `KProcReopen.lean`; the procfs
+handle is the one on the tree's base directory, not masked, emulated resolver; `hprobe`: `thread-self` exists).  The
+descriptor `reopen(fd)` returns is what the entry `fd/<fd>` leads to (`PWorld.target`), and that entry is an entry, on the
+handle's own mount, of a directory on the handle's own mount: an object that was mounted over `thread-self`, over its
+`fd` directory or over the magic-link itself is never returned — the call fails instead (`EXDEV`).  (First disjunct of
+`OnOwnMount`: an object of the procfs mount itself, the no-follow open of a path that is not a link — impossible for a
+real `fd/<n>` entry.) -/
+theorem C09_reopen_on_mounts {w : PWorld} (hw : PWF w) (env : Env) (fd : Fd) (hfd : 0 ≤ fd) (flags : Nat)
+    (hproc : env.proc = handleOf w)
+    (hprobe : Prog.prun w (Procfs.intoPath .threadSelf w.base) = .ok b!"thread-self") (o : Fd)
+    (h : Prog.prun w (Procfs.reopen env fd flags) = .ok o) :
+    OnOwnMount w (Path.decimal fd.toNat) (clearBits flags O_NOFOLLOW) o :=
+  reopen_on_own_mount hw env fd hfd flags hproc hprobe o h
+
+open KProc KProcOpen KProcReopen in
+/-- the same for `open_follow` with any base and any sub-path `parent/trailing` -/
+theorem C09_open_follow_on_mounts {w : PWorld} (hw : PWF w) (env : Env) (base : Procfs.Base) (sub parent trailing : Bytes)
+    (fl : Nat) (hprobe : Prog.prun w (Procfs.intoPath base w.base) = .ok (basePath base))
+    (hsub : SubOk sub parent trailing) (o : Fd)
+    (h : Prog.prun w (Procfs.openFollowH env (handleOf w) base sub fl) = .ok o) :
+    OnOwnMount w trailing fl o :=
+  open_follow_on_own_mount hw env base sub parent trailing fl hprobe hsub o h
+
 /-! ## Non-vacuity -/
+
+open KProcReopen in
+example : Prog.prun exampleWorldR (Procfs.reopen envR 3 O_RDONLY) = .ok 50 := exR_reopen
 
 example : Sys.procSubpath 1023 = .ok (b!"fd/" ++ Path.decimal 1023) := C09_proc_subpath_total 1023 (by decide)
 example : parseDigits (Path.decimal 40960) = 40960 := parse_decimal _
